@@ -24,8 +24,9 @@ pub const INC_IN_SET: usize = 13;
 pub const INC_IN_FILTER: usize = 14;
 pub const INC_IN_CALL_BODY: usize = 15;
 pub const COMP_IN_CAPTURE: usize = 16;
+pub const COMP_REENTRY: usize = 17;
 
-pub const SITES: [&str; 17] = [
+pub const SITES: [&str; 18] = [
     "top",               // entry template, top level
     "block",             // inside a block of the entry template (which extends base.html)
     "super",             // block of the parent, reached through super() of the entry template
@@ -45,6 +46,11 @@ pub const SITES: [&str; 17] = [
     "include-in-filter",        // included template, the include tag inside a filter section
     "include-in-call-body",     // included template, the include tag inside the body of a component call
     "comp-in-capture",          // component body, the call inside a filter section
+    // the call chain passes through the template that holds the fault a SECOND time: entry.html calls
+    // a component of comps.html, whose body includes inc1.html, which calls the host component of
+    // comps.html (seeded change C12-9: the line table used for the `called from` notes was switched
+    // to another template and never switched back)
+    "comp-reentry",
 ];
 
 /// bit masks over sites
@@ -57,7 +63,7 @@ pub const fn m(sites: &[usize]) -> u32 {
     }
     r
 }
-pub const ALL: u32 = (1 << 17) - 1;
+pub const ALL: u32 = (1 << 18) - 1;
 /// sites whose code is executed by rendering entry.html
 pub const RENDERED: u32 = ALL & !m(&[CHILD_TOP]);
 /// sites where a `{% block %}` may be written (not inside a component definition / for / if)
@@ -245,6 +251,19 @@ pub fn plant(site: usize, pad: &str, snippet: &str, tail: bool) -> Planted {
             calls.push(("entry.html", tag_range(&entry, CARD_TAG)));
             tpls.push(("entry.html", entry));
         }
+        COMP_REENTRY => {
+            file = "comps.html";
+            offset = 0;
+            card_body = body;
+            let inc1 = format!("x\n é {CARD_TAG}\n");
+            let entry = "a\n\n 😀 {{ <Wrap2 /> }}\n".to_string();
+            calls.push(("inc1.html", tag_range(&inc1, CARD_TAG)));
+            // the middle call site (the include inside Wrap2, in comps.html) is filled in below
+            calls.push(("comps.html", 0..0));
+            calls.push(("entry.html", tag_range(&entry, "{{ <Wrap2 /> }}")));
+            tpls.push(("inc1.html", inc1));
+            tpls.push(("entry.html", entry));
+        }
         CHILD_TOP => {
             let pre = "{% extends \"base.html\" %}\n";
             file = "entry.html";
@@ -260,10 +279,15 @@ pub fn plant(site: usize, pad: &str, snippet: &str, tail: bool) -> Planted {
          {{% component Need(a, b: integer = 1) %}}{{{{ a }}}}{{{{ b }}}}{{% endcomponent Need %}}\n\
          {{% component Rec() %}}{{{{ <Rec /> }}}}{{% endcomponent Rec %}}\n\
          {{% component Typed(q: string) %}}{{{{ q }}}}{{% endcomponent Typed %}}\n\
-         {{% component Card({CARD_ARGS}) %}}"
+         {}{{% component Card({CARD_ARGS}) %}}",
+        if site == COMP_REENTRY { format!("{{% component Wrap2() %}}w é\n  {INC1_TAG} w{{% endcomponent Wrap2 %}}\n") } else { String::new() }
     );
     let comps = format!("{card_pre}{card_body}{{% endcomponent Card %}}\n");
     let offset = if file == "comps.html" { card_pre.len() + pad.len() } else { offset };
+    if site == COMP_REENTRY {
+        let r = tag_range(&card_pre, INC1_TAG);
+        calls[1] = ("comps.html", r);
+    }
     let mut templates: Vec<(String, String)> = vec![("comps.html".to_string(), comps)];
     templates.extend(tpls.into_iter().map(|(n, s)| (n.to_string(), s)));
     let p = Planted { templates, entry: "entry.html", file, offset, calls };
